@@ -308,12 +308,14 @@ func (c *ShadowStreamClientConn) initRead(b []byte) (payloadLen int, err error) 
 	// Open sealed response header.
 	plaintext, err := shadowStreamCipher.DecryptInPlace(ciphertext)
 	if err != nil {
+		c.ShadowStreamConn.readErr = err
 		return 0, err
 	}
 
 	// Parse response header.
 	payloadLen, err = ParseTCPResponseHeader(plaintext, time.Now(), c.requestSalt[:c.requestSaltLen])
 	if err != nil {
+		c.ShadowStreamConn.readErr = err
 		return 0, err
 	}
 
@@ -328,6 +330,9 @@ func (c *ShadowStreamClientConn) readFirstPayloadChunk(b []byte) error {
 
 	// Open sealed payload chunk.
 	_, err := c.ShadowStreamConn.readCipher.DecryptInPlace(b)
+	if err != nil {
+		c.ShadowStreamConn.readErr = err
+	}
 	return err
 }
 
@@ -354,6 +359,11 @@ type ShadowStreamConn struct {
 	readBuf    []byte // lazily allocated; length is readEnd
 	readStart  int
 	readCipher *ShadowStreamCipher
+
+	// readErr is the authentication or framing error that ended the read side.
+	// After such an error the stream position and the nonce no longer line up,
+	// so every subsequent read must fail instead of trying to resynchronize.
+	readErr error
 
 	writeBuf    []byte // non-nil; length is always 0
 	writeCipher *ShadowStreamCipher
@@ -436,6 +446,10 @@ func (c *ShadowStreamConn) read(b []byte) (n int, err error) {
 		panic(fmt.Sprintf("ss2022.ShadowStreamConn.read: buffer too small: %d < %d", cap(b), streamReadMinBufferSize))
 	}
 
+	if c.readErr != nil {
+		return 0, c.readErr
+	}
+
 	// Read sealed length chunk.
 	ciphertext := b[:2+tagSize]
 	if _, err = io.ReadFull(c.Conn, ciphertext); err != nil {
@@ -444,12 +458,14 @@ func (c *ShadowStreamConn) read(b []byte) (n int, err error) {
 
 	// Open sealed length chunk.
 	if _, err = c.readCipher.DecryptInPlace(ciphertext); err != nil {
+		c.readErr = err
 		return 0, err
 	}
 
 	// Validate length.
 	length := int(binary.BigEndian.Uint16(ciphertext))
 	if length == 0 {
+		c.readErr = ErrZeroLengthChunk
 		return 0, ErrZeroLengthChunk
 	}
 
@@ -461,6 +477,7 @@ func (c *ShadowStreamConn) read(b []byte) (n int, err error) {
 
 	// Open sealed payload chunk.
 	if _, err = c.readCipher.DecryptInPlace(ciphertext); err != nil {
+		c.readErr = err
 		return 0, err
 	}
 
